@@ -113,9 +113,32 @@ func (c *dupSubExprChecker) yieldsFreshValue(x ast.Expr) bool {
 	})
 }
 
+// resultIsFloat reports whether a value of expr's type can hold a NaN:
+// a floating-point or complex number, or a struct, an array or an interface
+// that may contain one (x == x is false for those, too).
 func (c *dupSubExprChecker) resultIsFloat(expr ast.Expr) bool {
-	typ, ok := c.ctx.TypeOf(expr).(*types.Basic)
-	return ok && typ.Info()&types.IsFloat != 0
+	return c.mayHoldNaN(c.ctx.TypeOf(expr), 0)
+}
+
+func (c *dupSubExprChecker) mayHoldNaN(typ types.Type, depth int) bool {
+	if depth > 8 {
+		return true
+	}
+	switch typ := typ.Underlying().(type) {
+	case *types.Basic:
+		return typ.Info()&(types.IsFloat|types.IsComplex) != 0
+	case *types.Interface:
+		return true // Including type parameters.
+	case *types.Array:
+		return c.mayHoldNaN(typ.Elem(), depth+1)
+	case *types.Struct:
+		for i := 0; i < typ.NumFields(); i++ {
+			if c.mayHoldNaN(typ.Field(i).Type(), depth+1) {
+				return true
+			}
+		}
+	}
+	return false
 }
 
 func (c *dupSubExprChecker) warn(cause *ast.BinaryExpr) {
